@@ -142,6 +142,11 @@ def run_cfg(lay, cfg, idx, seed, sh):
     for i, v in enumerate(phase.TARGET_VARS):
         if cfg["envmask"][i]:
             env[v] = phase.TARGET_DEFAULT[v]
+    if idx % 2 == 0 and "CNB_TARGET_OS" in env:
+        env["CNB_TARGET_OS"] = "windows"         # the rules do not depend on the value
+    if idx % 3 != 0:
+        # newer lifecycles also export the locations as variables; the positional arguments stay mandatory for this API version
+        env.update({"CNB_PLATFORM_DIR": lay.platform, "CNB_BUILD_PLAN_PATH": lay.plan, "CNB_LAYERS_DIR": lay.layers, "CNB_BP_PLAN_PATH": lay.plan})
     base_args = lay.build_args() if cfg["name"] == "build" else lay.detect_args()
     args = (base_args + ["extra1", "extra2"])[:cfg["argc"]]
     if cfg.get("raw_path"):
